@@ -132,7 +132,7 @@ def stage_tools(run):
     d = os.path.join(run.scratch, "tools")
     if not os.path.isdir(d):
         os.makedirs(d)
-        for f in ("tool_caller", "tool_runas", "tool_uidhist", "librecorder.so"):
+        for f in ("tool_caller", "tool_runas", "tool_uidhist", "tool_named", "librecorder.so"):
             src = os.path.join(BUILD, "harness", f)
             if not os.path.exists(src):
                 raise CheckError("%s missing: run MANIFEST.setup_cmd" % src)
@@ -143,7 +143,7 @@ def stage_tools(run):
     return d
 
 
-def run_script_as(run, lib, script_lines, tag, uid, tty, timeout=120):
+def run_script_as(run, lib, script_lines, tag, uid, tty, timeout=120, ancestors=()):
     """tool_caller under LD_PRELOAD='lib recorder', running as `uid` with a pty (tty=1) or /dev/null on stdin"""
     tools = stage_tools(run)
     os.chmod(lib, 0o755)
@@ -157,6 +157,8 @@ def run_script_as(run, lib, script_lines, tag, uid, tty, timeout=120):
         os.unlink(rec)
     pre = "%s %s" % (lib, os.path.join(tools, "librecorder.so"))
     cmd = [os.path.join(tools, "tool_runas"), str(uid), "1" if tty else "0", pre, os.path.join(tools, "tool_caller"), script, rec, ini]
+    for name in reversed(list(ancestors)):          # outermost first: each stays alive as a process with that kernel name
+        cmd = [os.path.join(tools, "tool_named"), name] + cmd
     e = {"PATH": "/usr/bin:/bin", "HOME": "/"}
     try:
         p = subprocess.run(cmd, env=e, cwd=d, timeout=timeout, stdin=subprocess.DEVNULL, stdout=subprocess.PIPE, stderr=subprocess.PIPE)
